@@ -52,6 +52,7 @@ fn main() {
         "cose-der" => guarded(move || cbor::cose_der(&arg)),
         "cbor-get-info-response" => guarded(move || cbor::get_info_response(&hex(&arg))),
         "cbor-make-credential-request" => guarded(move || cbor::mc_request(&hex(&arg))),
+        "lock-wrappers" => guarded(move || ceremony::lock_wrappers(&arg)),
         "shipped-store" => guarded(move || ceremony::shipped_store(&arg)),
         "client-ceremonies" => guarded(move || client::sweep()),
         "client-prf" => guarded(move || { let _ = &arg; client::prf_inputs() }),
